@@ -338,13 +338,13 @@ pub fn rule_text(prop: &str) -> &'static str {
 
 pub fn tier_scenarios(prop: &str, tier: &str) -> u64 {
     let quick = match prop {
-        "C05" => 6_000,
-        "C19" => 4_000,
-        "C20" => 6_000,
+        "C05" => 40_000,
+        "C19" => 40_000,
+        "C20" => 40_000,
         _ => 1_000,
     };
     if tier == "thorough" {
-        quick * 100
+        quick * 50
     } else {
         quick
     }
@@ -378,6 +378,33 @@ pub fn scenario_size(s: &Scenario) -> usize {
 pub fn check(a: &RunArgs) -> i32 {
     let t0 = Instant::now();
     println!("check property={} tier={} VERIF_SEED={} scenarios={} workers={}", a.prop, a.tier, a.seed, a.scenarios, a.workers);
+    // regression replays: minimised scenarios of defects found (and fixed) earlier must keep passing
+    let mut regress_run = 0u64;
+    let mut regress_files: Vec<PathBuf> = std::fs::read_dir(a.verif_dir.join("replays").join("regress"))
+        .map(|rd| rd.flatten().map(|e| e.path()).collect())
+        .unwrap_or_default();
+    regress_files.sort();
+    for f in regress_files {
+        let name = f.file_name().and_then(|n| n.to_str()).unwrap_or("").to_string();
+        if !name.starts_with(&a.prop) || !name.ends_with(".json") {
+            continue;
+        }
+        let rf: ReplayFile = match std::fs::read(&f).ok().and_then(|b| serde_json::from_slice(&b).ok()) {
+            Some(r) => r,
+            None => {
+                eprintln!("harness error: cannot read regression replay {:?}", f);
+                return 2;
+            }
+        };
+        regress_run += 1;
+        if let (Some(v), _) = run_once(&rf.scenario, false) {
+            println!("regression replay {} fails again: {} ({})", f.display(), v.invariant, v.signature);
+            println!("{}", v.detail);
+            println!("VIOLATION property={} replay={}", a.prop, f.display());
+            return 1;
+        }
+    }
+    println!("regression replays passed: {}", regress_run);
     let agg = match spawn_workers(a, "run") {
         Ok(x) => x,
         Err(e) => {
@@ -449,7 +476,7 @@ pub fn check(a: &RunArgs) -> i32 {
             let body = serde_json::to_vec_pretty(&rf).unwrap();
             let mut h = 0xcbf29ce484222325u64;
             fnv(&mut h, &serde_json::to_vec(&rf.scenario).unwrap());
-            let dir = a.verif_dir.join("replays");
+            let dir = std::env::var("VERIF_REPLAY_DIR").map(PathBuf::from).unwrap_or_else(|_| a.verif_dir.join("replays"));
             let _ = std::fs::create_dir_all(&dir);
             let path = dir.join(format!("{}-{:016x}.json", a.prop, h));
             if let Err(e) = std::fs::write(&path, body) {
@@ -515,6 +542,7 @@ pub fn check(a: &RunArgs) -> i32 {
                 "workers": a.workers,
                 "components": components(),
                 "known_findings_reported": reported_known.iter().collect::<Vec<_>>(),
+                "regression_replays_passed": regress_run,
             },
             "assumptions": [
                 "the in-memory file system, stream and clock facades represent what std and the kernel may legally do (validated by `./check selftest fidelity` against the real binary)",
